@@ -216,3 +216,11 @@ for _k in ('pwc', 'pwl', 'disc'):
            bound_text='history integral/avrg(a,b) ; add ; mul_scalar ; integral/avrg(a,b) vs a fresh object with the same content; <= 2 pieces / events per operand (quick) / 3 (thorough), symbolic interval')
 kernel('thresh_trains.B', MI.DefaultThreshTrains(), 'B', sizes_quick=[(), (0,), (0, 1), (1, 0), (1, 2), (2, 0, 1)], sizes_thorough=[(), (0,), (0, 1), (1, 0), (1, 2), (2, 0, 1), (3, 2), (0, 0, 2)],
        bound_text='<= 3 trains with <= 2 spikes (quick) / 3 (thorough), trains without spikes included')
+from ..contracts.single_p import CoincidenceSingleP  # noqa
+kernel('single_py.P', CoincidenceSingleP(), 'P', standin='single_py.B', finder=sizes(0, 2) + [(2, 3), (3, 2), (3, 3)], finder_contract=CoincidenceSingle(), timeout_ms=60000)
+kernel('single_pyx.P', CoincidenceSingleP(PROF, 'coincidence_single_profile_cython'), 'P', standin='single_pyx.B', finder=sizes(0, 2) + [(2, 3), (3, 2), (3, 3)],
+       finder_contract=CoincidenceSingle(PROF, 'coincidence_single_profile_cython'), timeout_ms=60000)
+from ..contracts.dist_p import IsiDistanceP, SpikeDistanceP  # noqa
+kernel('isidist_pyx.P', IsiDistanceP(), 'P', standin='isidist_pyx.B', timeout_ms=60000)
+kernel('spikedist_pyx.P', SpikeDistanceP(RI=False), 'P', standin='spikedist_pyx.B', timeout_ms=60000)
+kernel('spikedist_ri_pyx.P', SpikeDistanceP(RI=True), 'P', standin='spikedist_pyx.B', timeout_ms=60000)
